@@ -236,14 +236,16 @@ def plan(tier, seed):
         for c in sweep.shape_chunks([(n, u)], per_chunk=2, maxp=maxp, depth=L, tier=tier):
             for part in range(parts):
                 chunks.append(dict(c, parts=parts, part=part))
+    chunks.append({'kind': 'cli'})
     return {
         'chunks': chunks,
         'rule': 'initial states: every hierarchy over n tokens (<= u unary insertions) x every word assignment '
                 'with <= p punctuation tokens from %r; transitions: %d transformation instances, enabled when '
                 'their documented prerequisites hold%s; BFS to depth L with a seen-set on (canonical tree, flags); two '
                 'edge-label patterns (heads left / heads right). '
-                'non-trivial initial states = those with punctuation or a gap'
-                % (PWORDS, len(OPS), ' (quick tier leaves out %s)' % ', '.join(QUICK_SKIP) if tier == 'quick' else ''),
+                '%d programs with a root-replacing step are also run through `treetools transform --trans` with and '
+                'without --split. non-trivial initial states = those with punctuation or a gap'
+                % (PWORDS, len(OPS), ' (quick tier leaves out %s)' % ', '.join(QUICK_SKIP) if tier == 'quick' else '', len(CLI_PROGRAMS)),
         'bound': ', '.join('n=%d:u<=%d:p<=%d:L=%d' % s[:4] for s in specs),
         'exhaustive': True,
         'explanation': 'states = distinct (canonical tree, prerequisite flags) reached; transitions = real '
@@ -324,8 +326,90 @@ def repr_state(c):
     return rec(c)
 
 
+CLI_PROGRAMS = [['add_topnode', 'negra_mark_heads'], ['add_topnode', 'root_attach', 'punctuation_root'],
+                ['negra_mark_heads', 'binarize', 'add_topnode'],
+                ['root_attach', 'negra_mark_heads', 'boyd_split', 'raising', 'add_topnode']]
+
+
+def check_cli(program, split):
+    """The same invariants through `treetools transform --trans ...` (with and without --split): every
+    written tree decodes, keeps its tokens, and has the documented label multiset."""
+    import os
+    import glob
+    from .. import codecs, cli
+    from ..runner import scratch
+    shapes = [((1, 2), 3), ((1, 3), 2, 4), (1, (2, 3, 4)), (((1, 2),), 3), ((1, 2, 3, 4),)]
+    mts = []
+    for i, sh in enumerate(shapes):
+        m = next(iter(initial_trees({'n': len(model.leaves(sh)), 'u': 0, 'lo': 0, 'hi': 0, 'maxp': 0})), None)
+        root = model.decorate(sh, lambda p, s: LABELS[(sum(p) + len(p)) % len(LABELS)], lambda p, s: 'HD' if p[-1] == 0 else '--')
+        n = len(model.leaves(sh))
+        words = ['w%d' % (j + 1) for j in range(n)]
+        if n > 2:
+            words[1] = ','
+        mts.append(model.MT(i + 1, model.mk_tokens(n, words=words, pos=[POS[j % len(POS)] for j in range(n)]), root))
+    case = {'cli': program, 'split': split}
+    out = []
+
+    def bad(kind, detail):
+        out.append({'kind': kind, 'where': 'transform --trans ' + ' '.join(program), 'case': case,
+                    'detail': '%s [--split %r]' % (detail, split), 'what': 'transformations through the command line: ' + kind})
+    d = scratch()
+    src = os.path.join(d, 'c04.export')
+    dest = os.path.join(d, 'c04.out')
+    for old in glob.glob(dest + '*'):
+        os.unlink(old)
+    with open(src, 'w', encoding='utf-8') as f:
+        f.write(codecs.encode_export(mts))
+    argv = ['transform', src, dest, '--trans'] + program + (['--split', split] if split else [])
+    st, so, se, exc = cli.run(argv)
+    if st != 0:
+        bad('cli-failed', 'exit status %r %s' % (st, cli.describe(exc)))
+        return out
+    files = sorted(glob.glob(dest + '.*'), key=lambda p: int(p.rsplit('.', 1)[1])) if split else [dest]
+    got = []
+    try:
+        for fpath in files:
+            got.extend(codecs.decode_export(open(fpath, encoding='utf-8').read()))
+    except codecs.DecodeError as e:
+        bad('ill-formed', 'output does not decode: %s' % e)
+        return out
+    if len(got) != len(mts):
+        bad('tree-count', '%d trees written for %d sentences' % (len(got), len(mts)))
+        return out
+    for m, g in zip(mts, got):
+        toks_in = [(t['word'], t['pos']) for t in m.toks]
+        toks_out = [(t['word'], t['pos']) for t in g.toks]
+        collapsing = 'collapse_unary_chains' in program
+        if not collapsing and toks_in != toks_out or collapsing and [w for w, _ in toks_in] != [w for w, _ in toks_out]:
+            bad('tokens-changed', 'sentence %d: tokens %r became %r' % (m.sid, toks_in, toks_out))
+        # the export format does not write the root's label: count the labels below it
+        lab_in = collections.Counter(nd[0] for nd in model.mt_all(m.root) if not isinstance(nd, int) and nd is not m.root)
+        lab_out = collections.Counter(nd[0] for nd in model.mt_all(g.root) if not isinstance(nd, int) and nd is not g.root)
+        exp = lab_in + collections.Counter(['VROOT'])       # the old root is now below TOP
+        n_at = sum(max(0, len(nd[2]) - 2) for nd in model.mt_all(m.root) if not isinstance(nd, int)) if 'binarize' in program else 0
+        plain_out = collections.Counter({k: v for k, v in lab_out.items() if not k.startswith('@')})
+        if collapsing:
+            comp_in, comp_out = collections.Counter(), collections.Counter()
+            for lab, c in exp.items():
+                comp_in.update({x: c for x in lab.split('+')})
+            for lab, c in lab_out.items():
+                comp_out.update({x: c for x in lab.split('+')})
+            for t in g.toks:
+                comp_out.update(t['pos'].split('+')[:-1])
+            if comp_in != comp_out:
+                bad('label-multiset', 'sentence %d: label components %r, expected %r' % (m.sid, dict(comp_out), dict(comp_in)))
+        elif plain_out != exp or sum(v for k, v in lab_out.items() if k.startswith('@')) != n_at:
+            bad('label-multiset', 'sentence %d: labels below the root %r, expected %r plus %d @-nodes'
+                % (m.sid, dict(lab_out), dict(exp), n_at))
+    return out
+
+
 def check_case(case):
     """Replay one program from its initial tree without the explorer."""
+    if 'cli' in case:
+        with quiet():
+            return check_cli(case['cli'], case['split'])
     with quiet():
         t = uncanon(canon(build(model.MT.from_json(case['init']))))
         flags = frozenset()
@@ -356,6 +440,19 @@ def check_case(case):
 
 def run_chunk(chunk):
     res = Result()
+    if chunk.get('kind') == 'cli':
+        with quiet():
+            for program in CLI_PROGRAMS:
+                for split in ('', '1#_rest', '2#_2#_rest'):
+                    vs = check_cli(program, split)
+                    res.evals += 1
+                    res.nontrivial += 1
+                    res.transitions += len(program) * 5
+                    for v in vs:
+                        res.violation(v['kind'], v['where'], v['case'], v['detail'], v['what'])
+        res.states += 1
+        res.sample({'cli': 'treetools transform SRC DEST --trans %s [--split 1#_rest]' % ' '.join(CLI_PROGRAMS[0])})
+        return res
     with quiet():
         inits = [m for i, m in enumerate(initial_trees(chunk)) if i % chunk.get('parts', 1) == chunk.get('part', 0)]
         res.evals = len(inits)
